@@ -491,14 +491,16 @@ func (e *c17Env) communityWindow() []uint64 {
 }
 
 // legit: may a send of this sender class, confirmed where it was confirmed, act on the spork contract?
-// The community key counts as designated inside its height window (the end height itself is not judged).
+// The community key counts as designated inside its height window [start, end) of CONFIRMATION heights — whatever
+// momentum the send itself chose to acknowledge.
 func (e *c17Env) legit(by string, send types.Hash) bool {
 	switch by {
 	case "designated":
 		return true
 	case "community":
 		c := e.confHeight(send)
-		return c >= definition.CommunitySporkAddressStartHeight && c <= definition.CommunitySporkAddressEndHeight
+		// the contract executes the call against the momentum that confirmed the send: [start, end)
+		return c >= definition.CommunitySporkAddressStartHeight && c < definition.CommunitySporkAddressEndHeight
 	}
 	return false
 }
@@ -513,8 +515,38 @@ func (e *c17Env) actSummary(id types.Hash) []string {
 
 // sporkCall submits a block to the spork contract and books accepted ones in the model.
 func (e *c17Env) sporkCall(kp *wallet.KeyPair, data []byte, amount *big.Int) (*nom.AccountBlock, error) {
-	return e.P.Submit(&nom.AccountBlock{BlockType: nom.BlockTypeUserSend, Address: kp.Address, ToAddress: types.SporkContract,
-		TokenStandard: types.ZnnTokenStandard, Amount: amount, Data: data}, kp)
+	tpl := &nom.AccountBlock{BlockType: nom.BlockTypeUserSend, Address: kp.Address, ToAddress: types.SporkContract,
+		TokenStandard: types.ZnnTokenStandard, Amount: amount, Data: data}
+	// the community key tries what a sender controls: the momentum its block acknowledges (older ones are admissible as
+	// long as they are not older than its previous block's) — inside its window while the chain is outside, and vice versa
+	if kp.Address == types.CommunitySporkAddress && e.r.Intn(2) == 0 {
+		w := e.communityWindow()
+		h := e.P.Height()
+		var want uint64
+		switch {
+		case h >= w[1] && w[1] > w[0]:
+			want = w[0] + uint64(e.r.Int63n(int64(w[1]-w[0])))
+		case h >= w[0] && w[0] > 2:
+			want = w[0] - 1 - uint64(e.r.Intn(2))
+		}
+		if want > 0 && want < h {
+			if m, _ := e.P.Chain.GetFrontierMomentumStore().GetMomentumByHeight(want); m != nil {
+				tpl.MomentumAcknowledged = m.Identifier()
+				e.c.SetAdd("community_key_explicit_acknowledgements", fmt.Sprintf("chain=%s ack=%s", c17WindowPos(h, w), c17WindowPos(want, w)))
+			}
+		}
+	}
+	return e.P.Submit(tpl, kp)
+}
+
+func c17WindowPos(h uint64, w []uint64) string {
+	switch {
+	case h < w[0]:
+		return "before-window"
+	case h < w[1]:
+		return "inside-window"
+	}
+	return "after-window"
 }
 
 func (e *c17Env) createSpork(kp *wallet.KeyPair, name, desc string) (types.Hash, error) {
